@@ -199,4 +199,23 @@ def fitSqls {α} (showNum : α → String) : List (Q α) → List String
   | c :: cs => fitSql showNum c :: fitSqls showNum cs
 end
 
+/-! ## tests (compiler-evaluated) : the text of the real objects, copied from a python session -/
+
+-- `(g.centre == 1) & (g.sigma == 2.5)`
+#guard fitSql (fun (n : Nat) => toString n) (mkJS {} (fun a b => Q.same a b) (sqlStr toString) 3 true
+    [pathQ ["g", "centre"] (.num .eq 1), pathQ ["g", "sigma"] (.num .eq 2)]) =
+  "SELECT id FROM fit WHERE instance_id IN (SELECT parent_id FROM object AS o WHERE (o.id IN (SELECT parent_id FROM object AS o JOIN value AS v ON o.id = v.id WHERE (o.name = 'centre' AND v.value = 1)) AND o.id IN (SELECT parent_id FROM object AS o JOIN value AS v ON o.id = v.id WHERE (o.name = 'sigma' AND v.value = 2)) AND o.name = 'g'))"
+-- `~(g.centre == 1) & (g.sigma == None)`
+#guard fitSql (fun (n : Nat) => toString n) (mkJS {} (fun a b => Q.same a b) (sqlStr toString) 3 true
+    [invert (pathQ ["g", "centre"] (.num .eq 1)), pathQ ["g", "sigma"] .nul]) =
+  "SELECT id FROM fit WHERE id IN (SELECT id FROM fit WHERE instance_id IN (SELECT parent_id FROM object AS o WHERE (o.id IN (SELECT parent_id FROM none AS n JOIN object AS o ON n.id = o.id WHERE (1 = 1 AND o.name = 'sigma')) AND o.name = 'g'))) AND id IN (SELECT id FROM fit WHERE instance_id NOT IN (SELECT parent_id FROM object AS o WHERE (o.id IN (SELECT parent_id FROM object AS o JOIN value AS v ON o.id = v.id WHERE (o.name = 'centre' AND v.value = 1)) AND o.name = 'g')))"
+-- `(g.centre == 1) & (g.centre == "a")`: three tables
+#guard fitSql (fun (n : Nat) => toString n) (mkJS {} (fun a b => Q.same a b) (sqlStr toString) 3 true
+    [pathQ ["g", "centre"] (.num .eq 1), pathQ ["g", "centre"] (.str .eq "a")]) =
+  "SELECT id FROM fit WHERE instance_id IN (SELECT parent_id FROM object AS o WHERE (o.id IN (SELECT parent_id FROM object AS o JOIN string_value AS sv ON o.id = sv.id JOIN value AS v ON o.id = v.id WHERE (o.name = 'centre' AND sv.value = 'a' AND v.value = 1)) AND o.name = 'g'))"
+-- `(g.centre == 1) & (info["k"] == "v")` : `str()` (used for hashing / sorting only)
+#guard sqlStr (fun (n : Nat) => toString n) (mkJS {} (fun a b => Q.same a b) (sqlStr toString) 3 true
+    [pathQ ["g", "centre"] (.num .eq 1), .fitc (.info "k" "v")]) =
+  "(SELECT fit_id FROM info WHERE key = 'k' AND value = 'v' AND o.id IN (SELECT parent_id FROM object AS o WHERE (o.id IN (SELECT parent_id FROM object AS o JOIN value AS v ON o.id = v.id WHERE (o.name = 'centre' AND v.value = 1)) AND o.name = 'g')))"
+
 end AF.Query
